@@ -177,6 +177,24 @@ CHECKS = {
         note='Trusted: TLC, the guarded hooks (FORML_VERIF=1), monotone enabling argument for the fixed scheduling of the trace spec. '
              'Real parallel timing is sampled, not exhausted. Non-platform exceptions (which stop a pool by design) are not injected.',
         design='6/C16'),
+    'C07': dict(
+        technique='TLC exhaustive over builder-call sequences (Statements.tla: each call ok iff WellFormed(next), SchemaOf) with every '
+                  'transition replayed on the real DSL; generator statements and single-rule violations validated by TraceStatements.tla',
+        text='DslAst.tla defines WellFormed as the set of broken grammar rules being empty and SchemaOf; Statements.tla explores all '
+             'builder-call sequences within the constants; every transition (verdict, successor, schema) is executed on the real DSL; '
+             'a stream of generator statements and of each single-rule violation at each position is judged by TLC.',
+        note='Trusted: TLC, harness.dslgen build/project. Window functions, Avg/Division result kinds are not generated.',
+        design='6/C07'),
+    'C08': dict(
+        technique='TLC over a cache/dictionary state machine parameterised by the key relation (Identity.tla: NoConfusion holds only '
+                  'for structural equality) with histories replayed on real dicts and the real parser cache; measured pairs '
+                  '(==, hash, dict/set, pickle, attribute access, parser cache) validated by TraceIdentity.tla against AST equality',
+        text='Identity.tla shows that lookups never confuse keys iff the key relation is structural equality; the implementation\'s key '
+             'relation is measured on rebuilt-identical pairs and one-leaf mutations (incl. hash-colliding literals, cross-kind '
+             'literals, equal-field tables) over ten clauses and judged by TLC; requirement-level histories run on real dicts and on '
+             'Reader._parse_statement.',
+        note='Trusted: TLC, harness.dslgen. Hash-colliding strings are out of reach (SipHash).',
+        design='6/C08'),
 }
 
 NOT_YET = {}
